@@ -829,7 +829,10 @@ def write_evidence(tier, seed, batch, wall, workers, n_viol, klines, det_info, s
             "harness_errors": len(harness),
             "unclassified_api": unclassified,
             "components_real": ["chmpy (all of /repo/src as imported)", "numpy", "scipy", "compiled chmpy extensions as built in-tree"],
-            "components_stubbed": ["file system behind pathlib.Path.write_text/read_text (in-memory SimFS with write faults)",
+            "components_stubbed": ["disk: a private tmpfs directory per history (real files) with write/read faults injected at pathlib.Path.write_text/read_text",
+                                   "id() of library objects: deterministic adversarial allocator (sim/idseam.py)",
+                                   "dependency calls inside queries: 20 seams of chmpy.crystal.crystal fail on their n-th call while armed",
+                                   "process: every history in a child forked from a pristine worker; isolated reference in pristine grandchildren",
                                    "logging (silenced)", "clock: not reached by any operation in the alphabet"],
             "not_explored": ["asynchronous interruption (KeyboardInterrupt) inside a query", "caller threads sharing one Crystal",
                              "silent on-disk corruption of a written file", "callers mutating returned arrays in place",
